@@ -191,9 +191,9 @@ def _jsonable(x, y=2, *rest, **kw):
     return [str(x), str(y), len(rest), sorted(kw)]
 
 
-SPECIAL_CALLS_1 = [((1,), {}), ((2, 3), {}), ((1,), {'y': 5}), ((2.26,), {}), ((4, 2, 9), {'z': 1}), ((1,), {})]
+SPECIAL_CALLS_1 = [((1,), {}), ((2, 3), {}), ((1,), {'y': 5}), ((2.26,), {}), ((4, 2, 9), {'z': 1}), ((1,), {}), ((2.264,), {}), (((2.26, 1.234),), {})]
 SPECIAL_CALLS_2 = [((1,), {'y': 5}), ((2, 3), {}), ((7,), {}), ((2.31,), {}), ((1,), {}), ((8,), {'y': 1}), ((9,), {}), ((2.26,), {}),
-                   ((4, 2, 9), {'z': 1}), ((1, 6), {}), ((2,), {'y': 3})]
+                   ((4, 2, 9), {'z': 1}), ((1, 6), {}), ((2,), {'y': 3}), ((2.2641,), {}), (((2.264, 1.2341),), {}), ((2.0,), {})]
 
 
 def _drive(f, calls):
@@ -252,8 +252,9 @@ def special_sessions(scratch, which=None):
                 continue
             cls = getattr(mod, name)
             bounded = name not in ('inf_cache', 'no_cache')
-            for kw in ([{'maxsize': 3, 'purge': True, 'tol': 0, 'ignore': ('y',)}, {'maxsize': 2, 'purge': False, 'tol': 1, 'deep': True}] if bounded
-                       else [{'tol': 0, 'ignore': ('y',)}, {'tol': 1, 'deep': True}]):
+            for kw in ([{'maxsize': 3, 'purge': True, 'tol': 0, 'ignore': ('y',)}, {'maxsize': 2, 'purge': False, 'tol': 1, 'deep': True},
+                        {'maxsize': 4, 'tol': 2, 'deep': False}, {'maxsize': 4, 'tol': None, 'deep': True}] if bounded
+                       else [{'tol': 0, 'ignore': ('y',)}, {'tol': 1, 'deep': True}, {'tol': 2, 'deep': False}, {'tol': None, 'deep': True}]):
                 n += 1
                 label = '%s.%s(%s) decorator-object' % (mod.__name__, name, ', '.join('%s=%r' % kv for kv in kw.items()))
                 try:
